@@ -633,9 +633,9 @@ class RunLength2dArray(IndexableMixin, np.lib.mixins.NDArrayOperatorsMixin):
             return self.__class__(self._indices, ufunc(self._values), self._row_len)
         assert len(inputs) == 2
 
-        if isinstance(inputs[1], (Number, np.ndarray)):
+        if isinstance(inputs[1], (Number, np.generic, np.ndarray)):
             return self.__class__(self._indices, ufunc(self._values, inputs[1]), self._row_len)
-        elif isinstance(inputs[0], (Number, np.ndarray)):
+        elif isinstance(inputs[0], (Number, np.generic, np.ndarray)):
             return self.__class__(self._indices, ufunc(inputs[0], self._values), self._row_len)
         return NotImplemented
 
